@@ -48,3 +48,76 @@ Definition imports_ok (e : string * list string) : bool :=
 (* the variables the footprint table calls gDecoders, gDecodersSR, gSge must exist *)
 Definition has_var (vs : list pkgvar) (p n : string) : bool :=
   existsb (fun v => String.eqb (v_pkg v) p && String.eqb (v_name v) n) vs.
+
+(* ------------------------------------------------------------------ reachability facts (C20Reach.v, generated) *)
+(* the operations of the footprint table (C20Model.api without its arguments) *)
+Inductive api_kind :=
+| KDecode | KDecodeSR | KInfo | KEncode | KEncodeSW | KSamples | KEncrypt | KDecrypt | KDecryptInit | KInitProtect
+| KDecryptWith | KEncryptWith | KToByteStream | KToNaluSample | KSetBoxDecoder | KRemoveBoxDecoder.
+
+Definition all_kinds : list api_kind :=
+  [KDecode; KDecodeSR; KInfo; KEncode; KEncodeSW; KSamples; KEncrypt; KDecrypt; KDecryptInit; KInitProtect;
+   KDecryptWith; KEncryptWith; KToByteStream; KToNaluSample; KSetBoxDecoder; KRemoveBoxDecoder].
+
+Definition kind_idx (k : api_kind) : nat :=
+  match k with
+  | KDecode => 0 | KDecodeSR => 1 | KInfo => 2 | KEncode => 3 | KEncodeSW => 4 | KSamples => 5 | KEncrypt => 6
+  | KDecrypt => 7 | KDecryptInit => 8 | KInitProtect => 9 | KDecryptWith => 10 | KEncryptWith => 11
+  | KToByteStream => 12 | KToNaluSample => 13 | KSetBoxDecoder => 14 | KRemoveBoxDecoder => 15
+  end.
+Definition kind_eqb (a b : api_kind) : bool := Nat.eqb (kind_idx a) (kind_idx b).
+
+(* a package-level variable: (package, name) *)
+Definition vname := (string * string)%type.
+Definition vname_eqb (a b : vname) : bool := String.eqb (fst a) (fst b) && String.eqb (snd a) (snd b).
+Definition vname_in (v : vname) (l : list vname) : bool := existsb (vname_eqb v) l.
+
+(* one operation of the table: the library functions behind it, the package-level variables reachable from them
+   through the call graph that can be read (or escape) and those that can be changed *)
+Record reach_entry := mkreach { r_kind : api_kind; r_fns : list string; r_reads : list vname; r_writes : list vname }.
+(* an exported function from which a change of package-level variables is reachable *)
+Record xwriter := mkxw { xw_pkg : string; xw_fn : string; xw_vars : list vname }.
+(* a reachable package-level variable of a type whose contents can change through a copy of the value *)
+Record shared_var := mkshared { sh_var : vname; sh_tkind : tkind; sh_uses : string; sh_witness : string }.
+
+(* the registry and the two exported functions that may change it (excluded by the property text) *)
+Definition registry_vars : list vname := [("mp4", "decoders"); ("mp4", "decodersSR")].
+Definition registry_mutators : list string := ["SetBoxDecoder"; "RemoveBoxDecoder"].
+Definition kind_is_registry (k : api_kind) : bool :=
+  match k with KSetBoxDecoder | KRemoveBoxDecoder => true | _ => false end.
+
+(* hand-audited: the shared package-level values of reference type.  Lookup tables that are only indexed / ranged
+   over, the three registries, the three uuid constants (escapes audited above).  A NEW reachable variable of such
+   a type (a cache map, a sync.Pool, a scratch slice, a *T singleton ...) is not in this list. *)
+Definition audited_shared : list vname :=
+  [ ("aac", "FrequencyTable"); ("aac", "ReverseFrequencies");
+    ("mp4", "AC3BitrateCodesKbps"); ("mp4", "AC3SampleRates"); ("mp4", "AC3acmodChannelTable");
+    ("mp4", "CustomChannelMapLocations"); ("mp4", "EC3ChannelLocationBits"); ("mp4", "PrftFlagsInterpretation");
+    ("mp4", "decoders"); ("mp4", "decodersSR"); ("mp4", "sgeDecoders");
+    ("mp4", "uuidPiffSenc"); ("mp4", "uuidTfrf"); ("mp4", "uuidTfxd") ].
+
+Fixpoint find_var (vs : list pkgvar) (v : vname) : option pkgvar :=
+  match vs with
+  | [] => None
+  | p :: r => if vname_eqb v (v_pkg p, v_name p) then Some p else find_var r v
+  end.
+
+(* a reachable read is fine when the variable is known and every use that can change it sits in an allowed writer *)
+Definition read_ok (vs : list pkgvar) (v : vname) : bool :=
+  match find_var vs v with Some p => var_ok p | None => false end.
+
+Definition is_nil {A} (l : list A) : bool := match l with [] => true | _ => false end.
+
+Definition reach_entry_ok (vs : list pkgvar) (e : reach_entry) : bool :=
+  forallb (read_ok vs) (r_reads e) &&
+  (if kind_is_registry (r_kind e) then forallb (fun v => vname_in v registry_vars) (r_writes e)
+   else is_nil (r_writes e)).
+
+Definition xwriter_ok (w : xwriter) : bool :=
+  String.eqb (xw_pkg w) "mp4" && str_in (xw_fn w) registry_mutators &&
+  forallb (fun v => vname_in v registry_vars) (xw_vars w).
+
+(* shared values of reference type: audited, known, never changed outside the allowed writers, and (for everything
+   but the registries) not changed by any exported function at all *)
+Definition shared_ok (vs : list pkgvar) (s : shared_var) : bool :=
+  vname_in (sh_var s) audited_shared && read_ok vs (sh_var s).
